@@ -138,6 +138,8 @@ def desc_to_case(desc, T, pl=2, ns=4097):
     """tuple description printed by the harness -> a case line that executes exactly that tuple"""
     f = desc.split(':')
     kv = dict(x.split('=', 1) for x in f if '=' in x)
+    if 'piece' in kv and f[0] in ('vbr', 'managed'):    # a tuple of the submission-size axis
+        return 'W %d %s %s %s %s %s %s' % (f[0] == 'managed', kv['ch'], kv['rate'], kv['nom'] if f[0] == 'managed' else kv['q'], kv['ns'], kv['piece'], kv['batch'])
     if 'lp' in kv and f[0] in ('vbr', 'managed'):      # a tuple of the geometry family: explicit-value case line
         return 'L %d %s %s %s %s %s %s 0' % (f[0] == 'managed', f[1][1:], kv['ch'], kv['rate'], kv['nom'] if f[0] == 'managed' else kv['q'], kv['cpl'], kv['lp'])
     if 'pl' in kv and f[0] in ('vbr', 'managed'):      # a tuple of the signal phase: explicit-value case line
@@ -294,8 +296,15 @@ def run(tier):
             if r is not None:
                 SC.absorb(meta, r)
 
-    sc_done = phase('scale', [l for l, m in sc_cases], [m for l, m in sc_cases], 'c15b', reserve=600, absorber=absorb_scale, always=len(sc_cases) if tier == 'quick' else 0,
-                    step=len(sc_cases) if tier == 'quick' else None)
+    sc_quick = len(c15_scale.cases('quick'))       # thorough: the quick members always, the rest in at most 4 minutes of the budget and never into the last 10
+    sc_done = phase('scale', [l for l, m in sc_cases], [m for l, m in sc_cases], 'c15b', reserve=max(600, chk.deadline - (time.time() + 240)), absorber=absorb_scale,
+                    always=sc_quick, step=sc_quick)
+    # ------------------------------------------------------------------ 3a''. submission-size axis of the encode stage: the whole signal in ONE vorbis_analysis_buffer/_wrote call, and in many small
+    # pieces that are all submitted (stream closed) before the first vorbis_analysis_blockout - the amount of audio buffered at one blockout is the axis (the other phases submit 1024 and drain)
+    SUB_TOTALS = [4096, 24576, 30000, 65536, 70001]
+    SUB_TEMPLATES = ['0 1 8000 0.1', '0 2 44100 0.5', '1 2 44100 128000', '0 6 48000 0.3'] + ([] if tier == 'quick' else ['0 2 22050 0.8', '1 1 16000 32000', '0 2 96000 0.5', '0 2 44100 -0.1'])
+    sub_cases = ['W %s %d %d %d' % (t_, tot, piece, batch) for t_ in SUB_TEMPLATES for tot in SUB_TOTALS for piece, batch in ((tot, 0), (1024, 1), (64, 1))]
+    phase('submit', sub_cases, [(2, int(c.split(' ')[5])) for c in sub_cases], 'c15w', always=len(sub_cases), step=len(sub_cases))
     # ------------------------------------------------------------------ 3a'. lifecycle family (pylib/c15_life.py, harness/c15_life.c): every legal call sequence up to the bound over
     # two encoders created from ONE successfully set-up vorbis_info; each encoder lifetime compared with the same calls made by the only encoder on a fresh info
     tt = time.time()
@@ -483,6 +492,8 @@ def run(tier):
             pl, ns = 100, 0
         elif f[0] == 'B':
             pl, ns = int(f[4]), int(f[5])
+        elif f[0] == 'W':
+            pl, ns = 2, int(f[5])
         else:
             pl = int(f[5]) if f[0] in 'GM' else (2 if f[5] == '1' else 0)
             ns = int(f[6]) if f[0] in 'GM' else 1100
@@ -586,6 +597,8 @@ def run(tier):
             'encodes_with_lowpass/Nyquist_in_(0.98,1)_by_subfamily_and_template': {'%s/%s' % k: v for k, v in sorted(G['near'].items())},
             'geometry_samples': [[g, c] for g, c in sorted(G['geo'].items())[::max(1, len(G['geo']) // 6)]][:6],
         },
+        'submission_axis': {'templates(managed ch rate q|nominal)': SUB_TEMPLATES, 'total_samples': SUB_TOTALS, 'pieces': 'whole signal in one vorbis_analysis_buffer/_wrote call; 1024- and 64-sample pieces, all submitted and the stream closed before the first vorbis_analysis_blockout',
+                            'cases': len(sub_cases)},
         'scaling_family': SC.coverage(tier, T, len(sc_cases), sc_done),
         'lifecycle_family': dict(LIFE, what='every legal call sequence of 1..depth calls over two encoder slots on one successfully set-up vorbis_info; calls per slot: A analysis_init, B block_init, '
                                             'H headerout, E one chunk of audio (buffer/wrote + blockout/analysis/addblock/flushpacket until dry), F end of stream, C block_clear + dsp_clear; vorbis_info_clear '
@@ -649,6 +662,8 @@ def run(tier):
         chk.guard(all(G['modes'].get(m, 0) >= 100 for m in ('vbr/lowpass_set', 'managed/lowpass_set', 'vbr/coupling_off/lowpass_set', 'managed/coupling_off/lowpass_set')),
                   'geometry: the lowpass sweep encoded >= 100 cases in each of VBR / managed x {as set up, OV_ECTL_COUPLING_SET 0 requested} (%s)' % G['modes'])
         chk.guard(len(order) >= 20 and states_encoded >= 20, 'at least 20 distinct post-ctl set-up states were encoded from')
+        sub_ok = {tot: sum(v for (p_, c_, k), v in enc_by.items() if p_ == 'submit' and k == 'pl2/ns%d/packets' % tot) for tot in SUB_TOTALS}
+        chk.guard(all(v == 3 * len(SUB_TEMPLATES) for v in sub_ok.values()), 'submission axis: every template x total x {one piece, 1024-sample pieces, 64-sample pieces all submitted before the first blockout} was encoded with packets (%s)' % sub_ok)
         vbr_stage2 = sum(v for (p_, k), v in cls_all.items() if p_ == 'vbr' and re.match(r'^V:init_vbr:-\d+:probe_setup_vbr:0:probe_setup_init:-\d+:', k))
         SC.guards(chk, tier, vbr_stage2, enc_by)
         chk.guard(LIFE['executed'] == LIFE['case_lines'] and LIFE['executed'] >= 5000, 'lifecycle: every generated sequence was executed (%d of %d)' % (LIFE['executed'], LIFE['case_lines']))
